@@ -13,7 +13,7 @@ V = pathlib.Path(__file__).resolve().parents[1]
 args = [a for a in sys.argv[1:] if not a.startswith('--')]
 opts = {a.split('=')[0]: (a.split('=') + [''])[1] for a in sys.argv[1:] if a.startswith('--')}
 tier = opts.get('--tier') or 'quick'
-names = args or sorted(p.name for p in (V / 'seeded').iterdir() if (p / 'patch.diff').exists())
+names = args or sorted(p.name for p in (V / 'seeded').iterdir() if (p / 'patch.diff').exists() and not p.name.startswith('_'))
 ALL = [f'C{k:02d}' for k in range(1, 21)]
 
 
